@@ -29,6 +29,9 @@ def run_facets(ctx, facets):
                 impl[r[0]] = r[1]
         for g in core.read_tsv(outs, "gen.tsv"):
             gens.append(g)
+        for b in core.read_tsv(outs, "extras.tsv"):
+            if len(b) >= 2:
+                BODIES[b[0]] = b[1]
         m = core.merge_meta(outs)
         for k, v in m.get("stats", {}).items():
             meta[k] = meta.get(k, 0) + v
@@ -61,10 +64,16 @@ def events(trace):
     return trace.split(" | ") if trace else []
 
 
+BODIES = {}
+
+
 def case_cfg(r):
     f = r.fields
-    return {"method": f[2], "path": bytes.fromhex(f[3]).decode("utf-8", "replace"), "mws": int(f[4]), "nf": f[5] == "1",
-            "spec": f[6] == "1", "cors": f[7] == "1", "parse": f[8] == "1", "auth": f[9], "query": f[10], "headers": f[11]}
+    cfg = {"method": f[2], "path": bytes.fromhex(f[3]).decode("utf-8", "replace"), "mws": int(f[4]), "nf": f[5] == "1",
+           "spec": f[6] == "1", "cors": f[7] == "1", "parse": f[8] == "1", "auth": f[9], "query": f[10], "headers": f[11]}
+    if r.id in BODIES:
+        cfg.update(json.loads(bytes.fromhex(BODIES[r.id]).decode("utf-8", "replace")))
+    return cfg
 
 
 def find(evs, prefix):
@@ -282,6 +291,13 @@ def decide(ctx, prop, rows, gens, plans, listed_open):
             st["unmodelled"] += 1
             continue
         st["evaluations"] += 1
+        if r.impl.startswith("FATAL:"):
+            # the process serving this request died with an unrecoverable runtime error
+            if len([v for v in ctx.violations if v.get("kind", "").startswith("the serving process died")]) < 2:
+                g = next((g for g in gens if g[0] == r.pkg), None)
+                ctx.violations.append({"kind": "the serving process died on this request (unrecoverable runtime error)", "case": r.id, "request": case_cfg(r),
+                                       "fatal": core.fatal_text(r.impl), "spec": bytes.fromhex(g[4]).decode("utf-8", "replace") if g and len(g) > 4 else None})
+            continue
         ai, am = aspect(prop, r.impl), aspect(prop, r.model)
         okm = ai == am
         okr = ref_ok(prop, r)
